@@ -226,17 +226,42 @@ def run(eng: Engine, ck: Check):
         ok = any('CONNECTED' in g and p for g, p in gs) and any(g.endswith('reconnect.auto') and p for g, p in gs) and len(gs) == 2
         ck.ob('R-C16-RECONNECT', sc, x, 'the reconnect watchdog starts on CONNECTED iff reconnect.auto', ok, f'{gs}', construct='watchdog start')
     stops = calls_on(sc.node, 'stop_server_connection_watchdog')
+    # decision table over the members of CloseReason: for which reasons is a stop call reached?  Each guard atom that speaks about
+    # close_reason (== member, in / not in a literal or named collection) is evaluated per member; other atoms are the CLOSING test.
+    cr_enum = eng.repo.find_cls('CloseReason', CONN)
+    ALL_REASONS = [t_.id for st_ in cr_enum.node.body if isinstance(st_, ast.Assign) for t_ in st_.targets if isinstance(t_, ast.Name)] if cr_enum else []
+    if len(ALL_REASONS) < 5:
+        raise AnalysisError('R-C16-RECONNECT: CloseReason members not found')
+
+    def atom_truth(e: ast.AST, pol: bool, member: str) -> Optional[bool]:
+        a = cmp_atom(e)
+        if not a or not (mentions_name(a[1], 'close_reason') or mentions_name(a[2], 'close_reason')):
+            return None
+        other = a[2] if mentions_name(a[1], 'close_reason') else a[1]
+        if isinstance(other, (ast.Name, ast.Attribute)) and not enum_member(other):
+            other = resolve_named_constant(other) or other
+        mem = enum_members_in(other) & set(ALL_REASONS)
+        if a[0] in ('eq', 'is', 'in'):
+            return (member in mem) == pol
+        return None
     reasons = set()
     for x in stops:
         gs = eng.guards_at(sc, x)
         closing = any(pol and enum_members_in(e) == {'CLOSING'} for e, pol, _ in gs)
-        rs_ = [enum_members_in(e) & {'REQUESTED', 'EOF', 'READ_ERROR', 'WRITE_ERROR', 'TIMEOUT', 'CONNECT_FAILED', 'UNKNOWN'} for e, pol, _ in gs
-               if pol and mentions_name(e, 'close_reason')]
-        for r in rs_:
-            reasons |= r
-        ck.ob('R-C16-RECONNECT', sc, x, 'the watchdog is stopped while CLOSING', closing, '', construct=f'watchdog stop {sorted(set().union(*rs_)) if rs_ else "?"}')
+        about = [(e, pol) for e, pol, _ in gs if mentions_name(e, 'close_reason')]
+        here = set()
+        for mname in ALL_REASONS:
+            truths = [atom_truth(e, pol, mname) for e, pol in about]
+            if about and all(t_ is True for t_ in truths):
+                here.add(mname)
+            if any(t_ is None for t_ in truths):
+                raise AnalysisError(f'R-C16-RECONNECT: guard on close_reason not understood: {[unparse(e) for e, _ in about]}')
+        reasons |= here
+        ck.ob('R-C16-RECONNECT', sc, x, 'the watchdog is stopped while CLOSING', closing, '', construct=f'watchdog stop {sorted(here) if here else "?"}')
     ck.ob('R-C16-RECONNECT', sc, sc.node, 'a requested disconnect and a server-side EOF (and nothing else) stop the reconnect watchdog', reasons == {'REQUESTED', 'EOF'},
-          f'reasons that stop the watchdog: {sorted(reasons)}', construct='watchdog stop reasons')
+          f'reasons that stop the watchdog: {sorted(reasons)}' + (' — CONNECT_FAILED is the close reason of the watchdog\'s own failed reconnect attempt: stopping on it '
+                                                                 'cancels the watchdog from inside itself after the first failed attempt' if 'CONNECT_FAILED' in reasons else ''),
+          construct='watchdog stop reasons')
     wj = eng.func(NET, 'Network._server_connection_watchdog_job')
     for x in calls_on(wj.node, 'connect_server'):
         gs = [(unparse(e), pol) for e, pol, _ in eng.guards_at(wj, x)]
